@@ -499,6 +499,33 @@ func (fv *FuncVC) resolveModifies(con *Contract, env *Env) []modTarget {
 				continue
 			}
 			switch fn.Name {
+			case "callback":
+				// callback(f): whatever the function value passed as f may write. Known at a call site that
+				// passes a closure / function literal (its declared or inferred write set); otherwise everything
+				// (A-CALLBACK does not apply to captured variables).
+				var fnv *ssa.Function
+				if v, ok := env.vars[exprText(n.Args[0])]; ok && v.Fn != nil {
+					fnv, _ = v.Fn.(*ssa.Function)
+				}
+				if fnv == nil {
+					add("*", "", "")
+					continue
+				}
+				var mods map[string]bool
+				if cc := g.spec.Contracts[funcKey(fnv)]; cc != nil && cc.HasMod {
+					mods = g.contractModNames(cc, fnv, nil)
+				} else {
+					mods = g.modOf(fnv)
+				}
+				for _, name := range sortedKeys(mods) {
+					if name == "*" || name == "?ext" {
+						add("*", "", "")
+						continue
+					}
+					if s := fv.heapSort[name]; s != "" && name != "LOCK" {
+						add(name, s, "")
+					}
+				}
 			case "elems":
 				// elems(T) whole heap, or elems(sliceExpr) one array
 				if t := g.resolveType(exprText(n.Args[0])); t != nil {
@@ -609,6 +636,32 @@ func (fv *FuncVC) afterHeapChange(name string) {
 // havocMod havocs the heaps named in mod ("*" = all known heaps).
 func (fv *FuncVC) havocMod(mod map[string]bool, args []*Val) {
 	if mod["*"] {
+		// A-CAPTURE: the variables this closure captured are written only by the declaring function and the
+		// closures that captured them; a callee that is not handed a closure leaves them as they are
+		type savedCell struct {
+			p *Place
+			v *Val
+		}
+		var keep []savedCell
+		closurePassed := false
+		for _, a := range args {
+			if a != nil && (a.Fn != nil || len(a.Bind) > 0) {
+				closurePassed = true
+			}
+		}
+		if fv.fn != nil && !closurePassed {
+			for _, f := range fv.fn.FreeVars {
+				if pv, ok := fv.params[f.Name()]; ok {
+					p := fv.placeFromPointer(pv)
+					keep = append(keep, savedCell{p, fv.loadPlace(fv.cur, p)})
+				}
+			}
+		}
+		defer func() {
+			for _, k := range keep {
+				fv.storePlace(k.p, k.v)
+			}
+		}()
 		for _, name := range sortedKeys(fv.heapSort) {
 			if name == "alloc" || name == "LOCK" || strings.HasPrefix(name, "VIS$") || strings.HasPrefix(name, "DF$") || strings.HasPrefix(name, "G$") && strings.Contains(name, ".") {
 				continue
